@@ -261,6 +261,7 @@ func RunCheck(p *Prop, tier string, seed uint64, o *Options) int {
 		go func(k int) {
 			defer wg.Done()
 			start := k
+			recycles := 0
 			for attempt := 0; start >= 0 && start < n; attempt++ {
 				if attempt >= 12 {
 					mu.Lock()
@@ -269,11 +270,15 @@ func RunCheck(p *Prop, tier string, seed uint64, o *Options) int {
 					mu.Unlock()
 					return
 				}
-				sr := runWorkerProc(p, o, tier, seed, start, W, n, fmt.Sprintf("%d.%d", k, attempt))
+				sr := runWorkerProc(p, o, tier, seed, start, W, n, fmt.Sprintf("%d.%d.%d", k, attempt, recycles))
 				mu.Lock()
 				if sr.result != nil {
 					mergeResult(agg, sr.result)
 					start = sr.result.Next
+					if sr.result.Recycled {
+						attempt-- // a voluntary restart
+						recycles++
+					}
 					mu.Unlock()
 					continue
 				}
